@@ -150,7 +150,7 @@ func checkC01(c *Ctx) {
 var assumptionsWS = []string{
 	"the reference core (verifsim/ref) is my reading of TS 38.413/24.501/33.501/35.206 and the oracle; it shares no code with the repository",
 	"a conformant AMF answers in the order Open5GS/free5GC do and sends one CONFIGURATION UPDATE COMMAND after REGISTRATION COMPLETE",
-	"downlink messages stay below the emulator's 2048-octet read buffer",
+	"downlink messages other than the PDU session setup request (64 KiB buffer) stay below the emulator's 2048-octet read buffers",
 	"gnb_id octets are below 0x80 (the documented \\x escapes of YAML cannot express single octets above that)",
 	"the process is one goroutine on the Go runtime's fake clock; computation costs zero simulated time",
 }
@@ -835,7 +835,7 @@ func checkC19(c *Ctx) {
 			add(scn.Fault{Kind: "garbage", K: k, Class: "prefix"})
 			add(scn.Fault{Kind: "garbage", K: k, Class: "empty-container"})
 			add(scn.Fault{Kind: "garbage", K: k, Class: fmt.Sprint("inner-len:", []int{1, 2, 7, 40, 100}[(k+i)%5])})
-			add(scn.Fault{Kind: "garbage", K: k, Class: fmt.Sprint("long:", []int{2048, 4096, 2047, 2049, 6144}[(k+i)%5])})
+			add(scn.Fault{Kind: "garbage", K: k, Class: fmt.Sprint("long:", []int{2048, 4096, 2047, 2049, 6144, 65535, 131070}[(k+i)%7])})
 			if c.Tier == "thorough" {
 				add(scn.Fault{Kind: "garbage", K: k, Class: "long:2048"})
 				add(scn.Fault{Kind: "garbage", K: k, Class: "long:4096"})
